@@ -104,7 +104,7 @@ Definition gather_cols (row : list Z) (idx : list Z) : option (list Z) :=
    one output row per selected sample.  No sync word: the fancy index is
    empty, split_sync returns a (0, 16) array.  Two or more words per sample:
    the fancy-indexed block is not C-contiguous and `.view(np.uint8)` raises
-   ValueError (None here) — see Props.v C10_multiword_digital_refuted. *)
+   ValueError (None here; an empty selection still passes) — see Props.v C10_multiword_digital_refuted. *)
 Definition read_sync_digital (typ ntr c0 c1 c2 c3 start stop : Z) (raw : list (list Z))
   : option (list (list Z)) :=
   let rows := slice_rows start stop raw in
@@ -114,7 +114,7 @@ Definition read_sync_digital (typ ntr c0 c1 c2 c3 start stop : Z) (raw : list (l
            | Some ws => Some (split_sync ws)
            | None => None
            end
-  | _ => None
+  | _ => match rows with [] => Some [] | _ => None end
   end.
 
 (* Analog values are handled as exact integers in units of 1/one volt
@@ -157,7 +157,11 @@ Definition read_sync (typ ntr c0 c1 c2 c3 start stop one thr gain : Z)
       | idx =>
           match all_some (map (fun r => gather_cols r idx) (slice_rows start stop raw)) with
           | None => None
-          | Some an => hconcat digital (map (digitise_row one thr gain floors) an)
+          | Some an =>
+              match floors, an with
+              | Some _, [] => None      (* np.percentile of an empty column: IndexError *)
+              | _, _ => hconcat digital (map (digitise_row one thr gain floors) an)
+              end
           end
       end
   end.
